@@ -76,7 +76,10 @@ RuleInit(cfg) ==
    tokensSinceReached |-> 0, goodTokens |-> 0, lastTokDa |-> -1]
 
 (* ------------------------------------------------------------------ result plumbing *)
-R(clause, sig, rs, hits) == [clause |-> clause, sig |-> sig, rs |-> rs, hits |-> hits]
+R(clause, sig, rs, hits) == [clause |-> clause, all |-> IF clause = "ok" THEN <<>> ELSE <<clause>>, sig |-> sig, rs |-> rs, hits |-> hits]
+(* every failing clause of an event (each is judged per property by the trace specification) *)
+RA(cs, sig, rs, hits) == LET bad == SelectSeq(cs, LAMBDA c : ~c[2]) IN
+  [clause |-> IF bad = <<>> THEN "ok" ELSE bad[1][1], all |-> [i \in 1..Len(bad) |-> bad[i][1]], sig |-> sig, rs |-> rs, hits |-> hits]
 NoSig == [x |-> 0]
 (* first failing clause of a sequence of <<name, holds>> pairs *)
 FirstBad(cs) == LET bad == SelectSeq(cs, LAMBDA c : ~c[2]) IN IF bad = <<>> THEN "ok" ELSE bad[1][1]
@@ -272,7 +275,7 @@ OnTx(rs, e) ==
              ELSE IF cls = "None" THEN [rs7 EXCEPT !.goodTokens = 0] ELSE rs7
       rs9 == TryReach(rs8, e.t1)
       reachHit == IF ~rs.reached /\ rs9.reached THEN <<ConvProp(rs) \o ".converge">> ELSE <<>>
-  IN R(clause, [cls |-> cls, kind |-> k, st |-> s], rs9, hits \o reachHit)
+  IN RA(allc, [cls |-> cls, kind |-> k, st |-> s], rs9, hits \o reachHit)
 
 (* ------------------------------------------------------------------ transmissions of environment actors *)
 (* scripted peers, reference slaves: they update what is on the wire but are not judged *)
@@ -346,7 +349,7 @@ OnPoll(rs, e) ==
               \o (IF ~wasReached /\ rs2.reached THEN <<ConvProp(rs) \o ".converge">> ELSE <<>>)
       \* a cadence overrun is reported once: restart the counters
       rs3 == IF cadOk THEN rs2 ELSE [rs2 EXCEPT !.cadBad = FALSE]
-  IN R(FirstBad(cs), [st |-> s], rs3, hits)
+  IN RA(cs, [st |-> s], rs3, hits)
 
 (* ------------------------------------------------------------------ Cb (C15) *)
 OnCb(rs, e) ==
@@ -366,13 +369,13 @@ OnCb(rs, e) ==
            rs1 == IF e.sent
                   THEN [rs0 EXCEPT !.appsent[s] = TRUE, !.outstanding[s] = IF e.reply THEN a ELSE -1, !.rrNext[s] = a]
                   ELSE [rs0 EXCEPT !.declined[s] = @ \cup {a}, !.rrNext[s] = (a + 1) % n]
-       IN R(IF judged THEN FirstBad(cs) ELSE "ok", [st |-> s, k |-> e.k], rs1, IF judged THEN <<"C15.holder", "C15.rr">> ELSE <<>>)
+       IN RA(IF judged THEN cs ELSE <<>>, [st |-> s, k |-> e.k], rs1, IF judged THEN <<"C15.holder", "C15.rr">> ELSE <<>>)
      ELSE
        LET cs == <<
              <<"C15.match", rs.outstanding[s] = a>>,
              <<"C15.form", e.k = "reply" => (e.tk = "sc" \/ (e.tk = "data" /\ e.resp /\ e.sa = e.addr /\ e.da = s))>> >>
            rs1 == [rs EXCEPT !.outstanding[s] = -1]
-       IN R(IF judged THEN FirstBad(cs) ELSE "ok", [st |-> s, k |-> e.k], rs1, IF judged THEN <<"C15.match", "C15." \o e.k>> ELSE <<>>)
+       IN RA(IF judged THEN cs ELSE <<>>, [st |-> s, k |-> e.k], rs1, IF judged THEN <<"C15.match", "C15." \o e.k>> ELSE <<>>)
 
 (* ------------------------------------------------------------------ population / faults / end *)
 OnOnline(rs, e) ==
@@ -394,7 +397,7 @@ OnEnd(rs, e) ==
       silent == FaultMode(rs.cfg) /\ rs.reached /\ rs.online # {}
                 /\ e.t - rs.last.t1 > maxTto + 4 * rs.cfg.tsl * Cardinality(rs.St)
       cs == << <<ConvProp(rs) \o ".converge", ~late>>, <<"C06.alive", ~silent>> >>
-  IN R(FirstBad(cs), [reached |-> rs.reached], rs, <<ConvProp(rs) \o ".end">>)
+  IN RA(cs, [reached |-> rs.reached], rs, <<ConvProp(rs) \o ".end">>)
 
 RuleStep(rs, e) ==
   CASE e.ev = "Tx"        -> IF "env" \in DOMAIN e THEN OnEnvTx(rs, e) ELSE OnTx(rs, e)
@@ -411,6 +414,14 @@ RuleStep(rs, e) ==
     [] e.ev = "End"       -> OnEnd(rs, e)
     [] OTHER              -> R("ok", NoSig, rs, <<>>)
 
+PropOf(c) == CASE c \in {"C01.overlap", "C01.permission", "C01.tsdr", "C01.tid"} -> "C01"
+               [] c \in {"C02.order", "C02.stable", "C02.converge", "C02.end"} -> "C02"
+               [] c \in {"C05.panic", "C05.hang"} -> "C05"
+               [] c \in {"C06.order", "C06.stable", "C06.converge", "C06.end", "C06.single", "C06.alive"} -> "C06"
+               [] c \in {"C11.accept", "C11.max3", "C11.silent", "C11.immediate", "C11.drop", "C11.patience", "C11.heard", "C11.own"} -> "C11"
+               [] c \in {"C12.range", "C12.one", "C12.cadence", "C12.successor", "C12.reply.state", "C12.reply.when", "C12.ready"} -> "C12"
+               [] c \in {"C13.hold", "C13.starve"} -> "C13"
+               [] OTHER -> "C15"
 AllClauses == {"C01.overlap", "C01.permission", "C01.tsdr", "C01.tid", "C01.Reply", "C01.Holder", "C01.PassSupervision", "C01.Claim", "C01.None",
                "C11.accept", "C11.max3", "C11.silent", "C11.immediate", "C11.drop", "C11.patience", "C11.heard", "C11.own",
                "C12.range", "C12.one", "C12.cadence", "C12.successor", "C12.reply.state", "C12.reply.when", "C12.ready",
